@@ -33,4 +33,7 @@ ENTRIES = [
     Entry('benign-cache-flag-explicit', DP, [('        if not self._cache:\n            return None', '        if self._cache is False:\n            return None')], kind='benign'),
     Entry('benign-offset-copy', BT, [('        gExtra = np.atleast_1d(gExtra) + self.gOffset\n', '        gExtra = np.array(gExtra, dtype=np.float64, ndmin=1)\n        gExtra += self.gOffset\n')], kind='benign'),
     Entry('benign-samples-eq-test', T, [('        if precPoints is None or prevT != T:', '        if precPoints is None or not (prevT == T):')], kind='benign'),
+    Entry('hash-table-shared-default', DP, [('    def __init__(self):\n        self._cache = True\n        self.cachedData = {}', '    def __init__(self, cachedData = {}):\n        self._cache = True\n        self.cachedData = cachedData')], 'R9.S'),
+    Entry('benign-hash-table-none-default', DP, [('    def __init__(self):\n        self._cache = True\n        self.cachedData = {}', '    def __init__(self, cachedData = None):\n        self._cache = True\n        self.cachedData = {} if cachedData is None else cachedData')], kind='benign'),
+    Entry('batch-per-point-sorted', BT, [('for i in range(len(T))])', 'for i in np.argsort(T)])')], 'R9.6'),
 ]
